@@ -1034,3 +1034,12 @@ fire('C02', 'buffer-cancel-rebuilds-ready-list', 'C02.R6', 'uncovered-mutation:r
 silent('C02', 'belt-sorts-a-copy-for-logging',
        lambda p: M.insert_after(p, S_BELT, 'BeltStore.move_to_ready_items', M.stmt_calling('self.ready_items.append'),
                                 'print(sorted(self.ready_items, key=lambda i: i.conveyor_entry_time)[:1])'))
+
+# ---- C09.R6: the first-available scan is exhausted before anything is dropped (seed C09-c)
+def _machine_scan_breaks_early(p):
+    s = p.modules[N_MAC].src
+    old = '                    for edge in self.out_edges:\n                        if edge.can_put():\n                            out_edge_index_to_put = edge\n                            break\n'
+    if old not in s:
+        raise M.Stale('Machine.worker non-blocking first-available scan not found')
+    return {N_MAC: s.replace(old, '                    for edge in self.out_edges:\n                        if edge.can_put():\n                            out_edge_index_to_put = edge\n                        break\n', 1)}
+fire('C09', 'machine-scan-stops-at-first-edge (seed C09-c)', 'C09.R6', 'scan-exhausted', _machine_scan_breaks_early)
